@@ -26,7 +26,7 @@ _INF = {"n": 0}
 
 
 def plan(tier):
-    n = 5000 if tier == "quick" else 200000
+    n = 5000 if tier == "quick" else 400000
     return {"cases": n, "shards": 16, "timeout": 900 if tier == "quick" else 3600, "min_nontrivial": 300,
             "min": {"draws_checked": 100000, "spliced_uniforms_delivered": 20000, "repoint_checks": 500}}
 
